@@ -412,12 +412,84 @@ def r7_input_canonical(ctx):
         ctx.check(ok, f"write: sparse='{lay}' ({enc}) selects {f_.split('.')[-1]}", wr)
 
 
+def r8_symmetry_test(ctx):
+    """_is_symmetric (sparse arm) decides form 6 by pairing every lower-triangle entry (r, c, v) with the upper-triangle entry (c, r, v').  The test
+    must therefore be invariant under transposition: swapping the roles of the row and column vectors must map each left-hand side of its
+    comparisons onto the right-hand side - including the two sort orders that line the triangles up.  Decided on values (names irrelevant)."""
+    from .sem import Sem, unfn
+    fn = ctx.src.func(OP4, "OP4._is_symmetric")
+
+    def cond(test, ev):
+        t = utext(test)
+        if t.startswith("isinstance(m,tuple)"):
+            return True
+        if "count_nonzero" in t:
+            return False
+        return None
+
+    def sub(node, ev):
+        # r, c, v = m[1:]
+        if isinstance(node.value, ast.Name) and node.value.id == "m" and isinstance(node.slice, ast.Slice):
+            return (F.sym("r"), F.sym("c"), F.sym("v"))
+        return NotImplemented
+
+    S = Sem(ctx, fn, cond=cond, subscript=sub)
+    ret = S.ret()
+    if ret is None or is_unknown(ret) or isinstance(ret, tuple):
+        ctx.error("_is_symmetric: returned test", fn, repr(ret))
+        return
+    # collect the (left, right) pairs of every equality / closeness test in the returned conjunction
+    pairs = []
+
+    def walk(v):
+        u = unfn(v)
+        if u is None:
+            return False
+        name, args = u
+        if name.startswith("bool:And"):
+            return all(walk(a) for a in args)
+        if name in ("call:np.all", "call:all") and len(args) >= 1:
+            return walk(args[0])
+        if name == "cmp:Eq" and len(args) == 2:
+            pairs.append(("==", args[0], args[1]))
+            return True
+        if name in ("call:np.allclose", "call:np.array_equal", "call:np.isclose") and len(args) >= 2:
+            pairs.append((name[5:], args[0], args[1]))
+            return True
+        return False
+
+    if not walk(ret) or len(pairs) < 3:
+        ctx.error("_is_symmetric: the sparse test is a conjunction of element-wise comparisons", S.ret_node(), repr(ret))
+        return
+    R, C = F.sym("r"), F.sym("c")
+    T = F.sym("__t")
+    n_ok = 0
+    for kind, a, b in pairs:
+        at = a.subs({"r": T}).subs({"c": R}).subs({"__t": C})      # transposition: r <-> c
+        ok = at.equals(b)
+        n_ok += ok
+        ctx.check(ok, "_is_symmetric: each compared pair is mirror-symmetric - transposing (rows <-> columns) the lower-triangle side gives exactly the "
+                      "upper-triangle side, sort order included", S.ret_node(),
+                  None if ok else {"left": repr(a)[:300], "left transposed": repr(at)[:300], "right": repr(b)[:300]},
+                  key=f"C04-R8|_is_symmetric|{kind} pair not mirror-symmetric")
+    # the three compared quantities are the column, the row and the value of the entries
+    kinds = set()
+    for kind, a, b in pairs:
+        u = unfn(a)
+        if u and u[0] == "idx":
+            base = unfn(u[1][0])
+            if base and base[0] == "idx":
+                kinds.add(repr(base[1][0]))
+    ctx.check(kinds == {"r", "c", "v"}, "_is_symmetric: rows, columns and values of the two triangles are all compared", S.ret_node(), sorted(kinds))
+
+
 RULES = [
     ("C04-R1", r1_ascii_field, 6),
     ("C04-R2", r2_headers, 10),
     ("C04-R3", r3_string_headers, 38),
     ("C04-R4", r4_ranges_and_dispatch, 10),
     ("C04-R7", r7_input_canonical, 10),
+    ("C04-R8", r8_symmetry_test, 4),
 ]
 LEVEL = "other"
 EXPLANATION = ("Static reader/writer agreement for OUTPUT4: header column tables, string-header encode/decode inverses (symbolic, with 2^16 packing), "
@@ -428,7 +500,8 @@ MANIFEST = {
             "header record), decode(encode(string header)) = identity for nonbigmat (2^16 packing) and bigmat layouts in ASCII and binary, declared "
             "nwords/reclen equal what readers consume, every layout switch uses the same rows >= 65536 boundary, the packed IS and the ASCII number "
             "field are checked over the whole value domain (two known findings: F1 ASCII field one character short for negative 3-digit exponents, "
-            "F2 IS overflows int32 for strings >= 16384 rows), sparse input is canonicalised. Not decided: float() parsing exactness, "
+            "F2 IS overflows int32 for strings >= 16384 rows), sparse input is canonicalised, and the sparse symmetry test that decides form 6 is "
+            "mirror-symmetric under transposition (sort orders included). Not decided: float() parsing exactness, "
             "_sparse_col_stats on arbitrary patterns, scipy.sparse behaviour.",
     "note": "Trusted: CPython ast; verifier/e2_formula.py polynomial arithmetic with the bit-operator model of verifier/op4_model.py (<< k = * 2^k; >> k and & "
             "(2^k - 1) resolved only when the low part is declared below 2^k: first row + 1 <= rows < 2^16 for the nonbigmat layout).",
